@@ -48,7 +48,7 @@ WITNESS = ("cache H 10 T~1|I~61.-:1:1:1:a16909060|T~1|I~61.-:15:1:2:x10,6d.-|T~1
 # histories per tier.  Measured on the 16-core sandbox (see the report of the author): the
 # thorough counts keep ./check --tier thorough under 15 minutes and under ~8 GB (core.py keeps
 # every model and impl output line in memory and python parses each impl line once per oracle).
-COUNTS = {"quick": 2000, "thorough": 60000}
+COUNTS = {"quick": 2000, "thorough": 100000}
 
 
 # --------------------------------------------------------------------------
@@ -673,7 +673,7 @@ def n_real_ops(case):
 
 def size_class(case):
     d = case.split(" ", 3)[2]
-    return "d2-5" if d in ("2", "5") else "d" + d
+    return "d" + d if d in ("0", "1", "512") else "d2-10"
 
 
 RULE_GEN = ("cases: histories of SharedCache operations under a virtual clock starting at 0 -- hand-written corpus first "
